@@ -90,7 +90,7 @@ class SubCheck(object):
 
     def __init__(self, name, check, strategy=None, enumerate=None, nontrivial=None, classes=None,
                  quick=1000, thorough=20000, shards_quick=1, shards_thorough=8, rule="", exhaustive=False,
-                 matchers=None, setup=None, use_target=False):
+                 matchers=None, setup=None, use_target=False, seq_groups=None, seq_len=3):
         self.use_target = use_target
         self.name = name
         self.check = check
@@ -106,6 +106,56 @@ class SubCheck(object):
         self.exhaustive = exhaustive
         self.matchers = matchers or {}
         self.setup = setup
+        if seq_groups and strategy is not None:
+            self._wrap_sequences(seq_groups, seq_len)
+
+    def _wrap_sequences(self, groups, max_len):
+        """Turn single-call cases into short call histories {"seq": [case, sibling, ...]}: every sibling is the previous
+        case with some *groups* of fields redrawn.  Calls that share part of their arguments with the preceding call
+        are what exposes results that depend on earlier calls (memoisation on an incomplete key, state left behind)."""
+        from hypothesis import strategies as st
+        base, check1, nt1, cl1 = self.strategy, self.check, self.nontrivial, self.classes
+
+        @st.composite
+        def seq(draw):
+            out = [draw(base)]
+            n = draw(st.sampled_from([0, 0, 1, 1, 2, max_len - 1]))
+            for _ in range(n):
+                other = draw(base)
+                mask = draw(st.integers(1, max(1, 2 ** len(groups) - 2)))
+                c = dict(out[-1])
+                for gi, g in enumerate(groups):
+                    if (mask >> gi) & 1:
+                        for k in g:
+                            if k in other:
+                                c[k] = other[k]
+                out.append(c)
+            return {"seq": out}
+
+        def check(case):
+            cases = case["seq"] if isinstance(case, dict) and "seq" in case else [case]
+            ran = 0
+            for c in cases:
+                try:
+                    check1(c)
+                    ran += 1
+                except Discard:
+                    continue
+            if not ran:
+                raise Discard()
+
+        self.strategy = seq()
+        self.check = check
+        self.nontrivial = lambda case: any(nt1(c) for c in (case["seq"] if "seq" in case else [case]))
+
+        def classes(case):
+            cs = case["seq"] if "seq" in case else [case]
+            out = set()
+            for c in cs:
+                out.update(cl1(c))
+            out.add("calls:%d" % len(cs))
+            return sorted(out)
+        self.classes = classes
 
     def run_case(self, case):
         """Run the relation on one case. Returns None, or a Fail. Raises HarnessError / Discard."""
